@@ -5,6 +5,7 @@ import (
 	"hash/crc64"
 
 	"go.miragespace.co/specter/kv/aof/proto"
+	"go.miragespace.co/specter/spec/chord"
 
 	bufPool "github.com/libp2p/go-buffer-pool"
 	"go.uber.org/zap"
@@ -32,7 +33,13 @@ func (d *DiskKV) replayLogs() error {
 			return fmt.Errorf("error decoding entry to mutation at index %d: %w", i, err)
 		}
 		if err := d.handleMutation(mut); err != nil {
-			return fmt.Errorf("error apply mutation to memory state at index %d: %w", i, err)
+			if err == chord.ErrKVPrefixConflict {
+				// a rejected PrefixAppend whose rollback did not complete before the process stopped:
+				// it was never acknowledged and had no effect, skip it as the rollback would have
+				d.logger.Warn("Skipping rejected mutation left in the log by an interrupted rollback", zap.Uint64("index", i))
+			} else {
+				return fmt.Errorf("error apply mutation to memory state at index %d: %w", i, err)
+			}
 		}
 		entry.Reset()
 		mut.Reset()
